@@ -228,7 +228,12 @@ pub fn first<T: AsRef<Path>>(path: T) -> RvResult<String> {
 /// assert_eq!(sys::name("/foo/bar.foo").unwrap(), "bar");
 /// ```
 pub fn name<T: AsRef<Path>>(path: T) -> RvResult<String> {
-    base(trim_ext(path)?)
+    let path = path.as_ref();
+    let base = base(path)?;
+    Ok(match path.extension() {
+        Some(val) => base.trim_suffix(format!(".{}", val.to_string()?)),
+        None => base,
+    })
 }
 
 /// Returns true if the `Path` contains the given path or string.
